@@ -84,6 +84,12 @@ type Lemma struct {
 	Src    string
 }
 
+type Pred struct {
+	Name   string
+	Params []string
+	C      *Clause
+}
+
 type ChanInv struct {
 	Field string // pkg.Type.field
 	Var   string
@@ -92,6 +98,7 @@ type ChanInv struct {
 
 type Specs struct {
 	ChanInvs  []*ChanInv
+	Preds     map[string]*Pred
 	Contracts map[string]*Contract
 	Ghosts    map[string]*GhostDecl
 	Funcs     map[string]*SpecFunc
@@ -102,7 +109,7 @@ type Specs struct {
 }
 
 func NewSpecs() *Specs {
-	return &Specs{Contracts: map[string]*Contract{}, Ghosts: map[string]*GhostDecl{}, Funcs: map[string]*SpecFunc{}}
+	return &Specs{Contracts: map[string]*Contract{}, Ghosts: map[string]*GhostDecl{}, Funcs: map[string]*SpecFunc{}, Preds: map[string]*Pred{}}
 }
 
 var tokenFset = token.NewFileSet()
@@ -336,6 +343,20 @@ func (S *Specs) LoadFile(path string, goFile bool) error {
 			S.Funcs[sf.Name] = sf
 			S.FuncOrder = append(S.FuncOrder, sf.Name)
 			cur = nil
+		case "pred":
+			// pred name(a, b): expr   — a macro over Go-typed values, expanded at each use
+			r := regexp.MustCompile(`^(\w+)\(([^)]*)\)\s*:\s*(.*)$`).FindStringSubmatch(rest)
+			if r == nil {
+				return fmt.Errorf("%s: cannot parse pred", src)
+			}
+			pd := &Pred{Name: r[1], C: mkClause("pred", r[3])}
+			for _, p := range strings.Split(r[2], ",") {
+				if p = strings.TrimSpace(p); p != "" {
+					pd.Params = append(pd.Params, p)
+				}
+			}
+			S.Preds[pd.Name] = pd
+			cur = nil
 		case "chaninv":
 			// chaninv mqtt.Client.writeSem(v): expr
 			r := regexp.MustCompile(`^([\w.]+)\((\w+)\)\s*:\s*(.*)$`).FindStringSubmatch(rest)
@@ -392,6 +413,9 @@ func (S *Specs) Finish() error {
 	}
 	for _, ci := range S.ChanInvs {
 		all = append(all, ci.C)
+	}
+	for _, pd := range S.Preds {
+		all = append(all, pd.C)
 	}
 	all = append(all, S.Axioms...)
 	all = append(all, S.Globals...)
